@@ -333,6 +333,8 @@ def shrink(case):
             if t[3] == "1":
                 yield " ".join(t[:3] + ["0"] + t[4:])
         return
+    if t[0] != "ev":
+        return        # file / evt cases are small already
     lvl, tags = _split_ev(t)
     def mk(tags):
         return "ev %s %d%s" % (lvl, len(tags), "".join(" %s %s" % x for x in tags))
